@@ -58,6 +58,65 @@ theorem cfb8_oneshot_prefix (C : Cipher) (hC : C.Valid) (w : Nat) (iv m ext : By
   rw [hf, hf]
   exact (cfb8_prefix C iv m ext).1
 
+/-- the chaining value after CFB decryption is the last ciphertext (input) block. -/
+theorem C09aux_cfbDec_last (C : Cipher) : ∀ (l : List Bytes) (iv : Bytes), (Spec.cfbDec C iv l).2 = l.getLastD iv := by
+  intro l
+  induction l with
+  | nil => intro iv; rfl
+  | cons p ps ih =>
+    intro iv
+    simp only [Spec.cfbDec, ih]
+    cases ps <;> simp [List.getLastD]
+
+/-- one-shot CFB encryption of *any byte length* (trailing partial block included) is the byte-at-a-time reference
+    machine — the same machine the buffered encryptor refines under any chunking. -/
+theorem cfb_oneshot_eq_reference (C : Cipher) (hC : C.Valid) (iv m : Bytes) (hiv : iv.length = C.bs) :
+    Spec.cfbEncBytes C iv m = (RS.run false C (RS.init iv) m).1 := by
+  have hbs := hC.bs_pos
+  have hm := chunks_flatten_tail C.bs hbs m
+  have hall := chunks_allLen C.bs hbs m
+  have htl := chunksTail_lt C.bs hbs m
+  obtain ⟨_, hch⟩ := Spec.cfbEnc_allLen C hC _ iv hiv hall
+  conv => rhs; rw [← hm]
+  rw [RS.run_append, RS.init, RS.run_blocks_enc C hC _ iv hiv hall]
+  simp only
+  rw [RS.run_partial false C _ _ (by simpa using htl) (hC.enc_len _ hch)]
+  simp [Spec.cfbEncBytes]
+
+
+theorem cfb_oneshot_dec_eq_reference (C : Cipher) (hC : C.Valid) (iv m : Bytes) (hiv : iv.length = C.bs) :
+    Spec.cfbDecBytes C iv m = (RS.run true C (RS.init iv) m).1 := by
+  have hbs := hC.bs_pos
+  have hm := chunks_flatten_tail C.bs hbs m
+  have hall := chunks_allLen C.bs hbs m
+  have htl := chunksTail_lt C.bs hbs m
+  have hch : (Spec.cfbDec C iv (chunks C.bs m)).2.length = C.bs := by
+    rw [(C09aux_cfbDec_last C (chunks C.bs m) iv)]
+    cases hc : (chunks C.bs m).reverse with
+    | nil => simp at hc; simp [hc, hiv]
+    | cons x xs =>
+      have : chunks C.bs m = xs.reverse ++ [x] := by have := congrArg List.reverse hc; simpa using this
+      rw [this, List.getLastD_concat]
+      exact hall x (by rw [this]; simp)
+  conv => rhs; rw [← hm]
+  rw [RS.run_append, RS.init, RS.run_blocks_dec C hC _ iv hiv hall]
+  simp only
+  rw [RS.run_partial true C _ _ (by simpa using htl) (hC.enc_len _ hch)]
+  simp [Spec.cfbDecBytes]
+
+/-- **one-shot CFB is prefix-preserving** (both directions, every byte length, trailing partial blocks on either
+    side): the output for `m` is the same-length prefix of the output for any extension `m ++ ext`. -/
+theorem cfb_oneshot_prefix (C : Cipher) (hC : C.Valid) (w : Nat) (iv m ext : Bytes) (hiv : iv.length = C.bs) :
+    (asyncInOut C.bs (Cfb.encBlocks C w) (Cfb.encBlock C) (Cfb.init C iv) (m ++ ext)).take m.length
+      = asyncInOut C.bs (Cfb.encBlocks C w) (Cfb.encBlock C) (Cfb.init C iv) m ∧
+    (asyncInOut C.bs (Cfb.decBlocks C w) (Cfb.decBlock C) (Cfb.init C iv) (m ++ ext)).take m.length
+      = asyncInOut C.bs (Cfb.decBlocks C w) (Cfb.decBlock C) (Cfb.init C iv) m := by
+  rw [C03.cfb_oneshot_enc, C03.cfb_oneshot_enc, C03.cfb_oneshot_dec, C03.cfb_oneshot_dec,
+    cfb_oneshot_eq_reference C hC iv _ hiv, cfb_oneshot_eq_reference C hC iv _ hiv,
+    cfb_oneshot_dec_eq_reference C hC iv _ hiv, cfb_oneshot_dec_eq_reference C hC iv _ hiv,
+    RS.run_append, RS.run_append]
+  exact ⟨List.take_left' (RS.run_length false C m _), List.take_left' (RS.run_length true C m _)⟩
+
 /-! ### 2. buffered CFB: `BufEncryptor::encrypt` / `BufDecryptor::decrypt` under any chunking -/
 
 /-- the public call: `encrypt` on a `BufEncryptor`, `decrypt` on a `BufDecryptor`. -/
